@@ -506,6 +506,8 @@ func c17GenSize() *rapid.Generator[c17Size] {
 			} else {
 				s.Int = fmt.Sprint(n)
 			}
+			// zero-padded spellings (what a template or an env placeholder may produce) are decimal all the same
+			s.Int = strings.Repeat("0", rapid.SampledFrom([]int{0, 0, 0, 1, 2, 4}).Draw(t, "pad")) + s.Int
 			return s
 		}
 		k := rapid.IntRange(0, 2).Draw(t, "k")
@@ -532,6 +534,7 @@ func c17GenSize() *rapid.Generator[c17Size] {
 			maxInt := int64(1) << (53 - shift)
 			s.Int = fmt.Sprint(rapid.OneOf(rapid.Int64Range(0, maxInt), rapid.Int64Range(0, 100)).Draw(t, "int"))
 		}
+		s.Int = strings.Repeat("0", rapid.SampledFrom([]int{0, 0, 0, 0, 1, 3}).Draw(t, "padu")) + s.Int
 		return s
 	})
 }
@@ -544,6 +547,9 @@ func TestC17_Sizes(t *testing.T) {
 		}
 		lab := "size_plain"
 		nt := false
+		if len(s.Int) > 1 && s.Int[0] == '0' {
+			record("C17", s, false, "size_zero_padded")
+		}
 		if s.Unit != "" {
 			lab = "size_unit"
 			nt = s.Unit != strings.ToLower(s.Unit) && s.Frac != ""
